@@ -30,3 +30,19 @@ package parser
 //@   requires m != nil
 //@   fresh-result
 //@   ensures result != nil && result.regex != nil
+
+// ---- numbers in repetition ranges: plain decimal ----
+// decval(l, k): the decimal value of the first k digits of l
+//@ ghost func decval(l comb.List, k int) int
+//@ axiom forall l comb.List :: {decval(l, 0)} decval(l, 0) == 0
+//@ axiom forall l comb.List, k int :: {decval(l, k)} k > 0 ==> decval(l, k) == decval(l, k - 1) * 10 + unbox(l[k - 1].Val, "int")
+
+//@ func toDigit(r comb.Result) (comb.Result, bool)
+//@   assumes @L-COMB typeis(r.Val, "rune") && '0' <= unbox(r.Val, "rune") && unbox(r.Val, "rune") <= '9'
+//@   ensures result1 && typeis(result0.Val, "int") && unbox(result0.Val, "int") == unbox(r.Val, "rune") - '0'
+
+//@ func toNum(r comb.Result) (comb.Result, bool)
+//@   assumes @L-COMB typeis(r.Val, "comb.List") && len(unbox(r.Val, "comb.List")) >= 1
+//@   assumes @L-COMB forall k int :: {unbox(r.Val, "comb.List")[k]} 0 <= k && k < len(unbox(r.Val, "comb.List")) ==> typeis(unbox(r.Val, "comb.List")[k].Val, "int")
+//@   loop[0] invariant num == decval(l, __i0)
+//@   ensures @decimal result1 && typeis(result0.Val, "int") && unbox(result0.Val, "int") == decval(unbox(r.Val, "comb.List"), len(unbox(r.Val, "comb.List")))
